@@ -120,7 +120,18 @@ fn pipeline_unit(ctx: &Ctx, si: usize, chunk: u64, n: u64, run_id: u64) -> UnitO
         out.evals += 1;
         match f(&draw, &MSG, &mut sigbuf, false) {
             Err(e) => {
-                out.harness = Some(format!("C14: pipeline run failed for {name}: {e}"));
+                // the baseline succeeded: an RNG output for which the call fails has left the common path
+                out.viols.push(Violation {
+                    run: run_id,
+                    invariant: "trace-diverges:control-flow".into(),
+                    finding_key: format!("trace-diverges:pipeline:{name}:call-fails"),
+                    body: json!({
+                        "window": "pipeline", "set": name, "stream_class": class,
+                        "baseline_draw": hx(&base), "draw": hx(&d), "message": hx(&MSG),
+                        "observed": format!("keygen+sign returned Err({e:?}) for this RNG output while it succeeds for the baseline: the execution history depends on the value returned by the generator"),
+                        "expected": "identical edge and load/store-address history for every RNG output",
+                    }),
+                });
                 return out;
             }
             Ok(t) => {
@@ -375,7 +386,10 @@ fn replay_body(body: &Value) -> Result<Option<(String, String, String)>, String>
             let ta = f(&slot, &msg, &mut sig, true).map_err(|e| e.to_string())?;
             let la = covrt::take_log();
             *slot = *d;
-            let tb = f(&slot, &msg, &mut sig, true).map_err(|e| e.to_string())?;
+            let tb = match f(&slot, &msg, &mut sig, true) {
+                Ok(t) => t,
+                Err(e) => return Ok(Some(("trace-diverges:control-flow".into(), format!("keygen+sign returned Err({e:?}) for this RNG output while it succeeds for the baseline"), "identical histories".into()))),
+            };
             let lb = covrt::take_log();
             if ta == tb {
                 return Ok(None);
